@@ -26,9 +26,9 @@ def pad (part : Bytes) (con : Node) : Node :=
     if ai ≥ (nodes.length : Int) + 1 then .ary (nodes ++ padNulls (ai.toNat - nodes.length)) else con
   | _, _ => con
 
-/-- entering the node `get key` returned -/
-def enter (cr : Bool) (key : Bytes) (next : Node) : Outcome Node :=
-  if key = [] ∧ cr then .err .invalid else intoContainer next
+/-- entering the node `get key` returned (the flag and the key are no longer consulted) -/
+def enter (_cr : Bool) (_key : Bytes) (next : Node) : Outcome Node :=
+  intoContainer next
 
 /-- `doc.add(key, child)` with the error ignored -/
 def addIgn (o : Opts) (con1 : Node) (key : Bytes) (self : Node) :
@@ -43,7 +43,7 @@ def addIgn (o : Opts) (con1 : Node) (key : Bytes) (self : Node) :
 
 def putRes (o : Opts) (con : Node) (key : Bytes) (self : Node) :
     Outcome (Node × Node) → Outcome (Node × Node)
-  | .ok (child', _) => if key = [] then .ok (con, child') else .ok (putChild o con key child', self)
+  | .ok (child', _) => .ok (putChild o con key child', self)
   | .err e => .err e
   | .panic => .panic
 
@@ -118,7 +118,7 @@ theorem ensure_cons2 (o : Opts) (cr : Bool) (self con : Node) (part nxt : Bytes)
         | panic => rfl
     | _ =>
       simp only []
-      generalize (if decodeToken part = [] ∧ cr = true then Outcome.err Err.invalid else intoContainer _) = x
+      generalize intoContainer _ = x
       cases x with
       | panic => rfl
       | err e => rfl
